@@ -59,24 +59,29 @@ func NewValidatorSet(vals []*Validator) *ValidatorSet {
 	return vs
 }
 
-// TODO: mind the overflow when times and votingPower shares too large.
+// IncrementAccum advances the proposer rotation by `times` rounds. A batched
+// increment must select the same proposers (and leave the same accums) as
+// `times` single increments, otherwise a replica that skipped rounds disagrees
+// with one that went through every round.
+// TODO: mind the overflow when votingPower and accum are too large.
 func (valSet *ValidatorSet) IncrementAccum(times int64) {
-	// Add VotingPower * times to each validator and order into heap.
+	for i := int64(0); i < times; i++ {
+		valSet.incrementAccumOnce()
+	}
+}
+
+func (valSet *ValidatorSet) incrementAccumOnce() {
+	// Add VotingPower to each validator and order into heap.
 	validatorsHeap := gcmn.NewHeap()
 	for _, val := range valSet.Validators {
-		val.Accum += int64(val.VotingPower) * int64(times) // TODO: mind overflow
+		val.Accum += int64(val.VotingPower) // TODO: mind overflow
 		validatorsHeap.Push(val, accumComparable(val.Accum))
 	}
 
-	// Decrement the validator with most accum, times times.
-	for i := 0; i < int(times); i++ {
-		mostest := validatorsHeap.Peek().(*Validator)
-		if i == int(times-1) {
-			valSet.proposer = mostest
-		}
-		mostest.Accum -= int64(valSet.TotalVotingPower())
-		validatorsHeap.Update(mostest, accumComparable(mostest.Accum))
-	}
+	// Decrement the validator with most accum.
+	mostest := validatorsHeap.Peek().(*Validator)
+	valSet.proposer = mostest
+	mostest.Accum -= int64(valSet.TotalVotingPower())
 }
 
 func (valSet *ValidatorSet) Copy() *ValidatorSet {
